@@ -269,9 +269,18 @@ def conclude(pid, tier, seed, res, wall):
 
 
 def replay(pid, path):
+    """Print the recorded violation; histories and schedules (E3) are re-executed on the real code."""
     with open(path) as f:
         r = json.load(f)
-    print(json.dumps(r, indent=1))
+    print(json.dumps(trim(r, 2000), indent=1))
+    ex = (r.get("examples") or [{}])[0]
+    if isinstance(ex, dict) and isinstance(ex.get("replay"), dict):
+        e3 = build_e3()
+        p = subprocess.run([e3, "replay", path], stdout=subprocess.PIPE, stderr=subprocess.PIPE, text=True, cwd="/")
+        print("\n--- re-executed on the current /repo tree ---")
+        print(p.stdout[-6000:])
+    elif isinstance(ex, dict) and ex.get("source"):
+        print("\n--- plain test: paste the `source` of the example into a #[test] of ts-rs and print decl() / serde_json::to_value ---")
     print("\nTo re-run the exploration that produced this file: ./check", pid, "--tier", r.get("tier", "quick"))
     return 0
 
